@@ -159,7 +159,12 @@ def validate_records(records, trace_module, trace_cfg="", *, chunk=4000, jobs=NC
             elif "consumed" in obj:
                 consumed = (obj["consumed"], obj["total"])
         if consumed is None or consumed[0] != n or consumed[1] != n:
-            errs = "\n".join(l for l in out.splitlines() if l.startswith("Error") or "line " in l and "module" in l)[:3000]
+            lines_ = out.splitlines()
+            keep = set()
+            for k_, l in enumerate(lines_):
+                if l.startswith("Error") or ("line " in l and "module" in l and not l.startswith("State")):
+                    keep.update(range(k_, min(len(lines_), k_ + 4)))
+            errs = "\n".join(lines_[k_] for k_ in sorted(keep) if not lines_[k_].startswith(("State ", "i = ")))[:3000]
             raise MachineryError(f"trace validation incomplete ({consumed} of {n}) for {p}:\n{errs}\n{out[-1500:]}")
         return bad
 
